@@ -100,7 +100,7 @@ def check(case, rec):
   H.set_data(d, states)
 
   mjw.forward(m, d)
-  if (H.overflow(d) & _CAP).any():
+  if (H.overflow_fwd(d) & _CAP).any():
     rec.inconclusive += 1
     return
   fwd = {k: getattr(d, k).numpy().copy() for k in ("qacc", "qfrc_actuator", "qfrc_smooth", "qfrc_constraint", "qfrc_bias", "qfrc_passive", "M", "qvel", "nefc")}
@@ -108,7 +108,7 @@ def check(case, rec):
   if discrete:
     mjw.step(m, d)
     vnext = d.qvel.numpy().copy()
-    if (H.overflow(d) & _CAP).any():
+    if (H.overflow_fwd(d) & _CAP).any():
       rec.inconclusive += 1
       return
     H.set_data(d, states)  # restores qpos, qvel, act, time, qacc_warmstart (and inputs)
